@@ -282,12 +282,32 @@ func c10Once(cs *core.Case) (ran, nontrivial bool, sym, det string) {
 }
 
 func c10Queries(thorough bool) []string {
+	set := gen.NewSet()
+	for _, q := range c10QueriesRaw(thorough) {
+		set.Add(q, 1)
+	}
+	return set.List
+}
+
+func c10QueriesRaw(thorough bool) []string {
 	qs := []string{
 		`a`, `sum by (l) (a)`, `sum(a)`, `count by (l) (a)`, `count(a)`, `min by (l) (a)`, `max without (m) (a)`, `group by (l) (a)`,
 		`avg by (l) (a)`, `avg(a)`, `stddev(a)`, `quantile(0.5, a)`, `topk(1, a)`, `bottomk by (l) (1, a)`, `topk(2, a)`,
 		`rate(a[1m])`, `sum by (l) (rate(a[1m]))`, `abs(a)`, `-a`, `a + 1`, `a + a`, `sum by (l) (a) / count by (l) (a)`,
 		`max by (l) (sum by (l, m) (a))`, `sum by (l) (a) + 1`, `min by (l) (a) + on (l) group_right a`, `sum(a) + sum(b)`, `scalar(sum(a))`,
 		`sum by (l) (a @ 45.000)`, `sum by (l) (a offset 30s)`, `count(a > 2)`, `sum by (l) (abs(a))`, `abs(sum by (l) (a))`, `avg(a) + count(a)`,
+	}
+	// every aggregation x every grouping kind, bare and under one more operator
+	for _, g := range []string{"", "by (l)", "without (m)", "without ()", "by (l, m)", "by (z)"} {
+		for _, op := range gen.SimpleAgg {
+			x := fmt.Sprintf("%s %s (a)", op, g)
+			qs = append(qs, x)
+			if g == "by (l)" || g == "without (m)" {
+				qs = append(qs, "abs("+x+")", x+" + 1", "max by (l) ("+x+")", "count("+x+")", x+" / on (l) group_left sum by (l) (b)")
+			}
+		}
+		qs = append(qs, fmt.Sprintf("topk %s (1, a)", g), fmt.Sprintf("bottomk %s (2, a)", g), fmt.Sprintf("quantile %s (0.5, a)", g),
+			fmt.Sprintf("sum %s (rate(a[1m]))", g), fmt.Sprintf("count %s (a > 5)", g))
 	}
 	if thorough {
 		qs = append(qs, `sum by (l) (sum_over_time(a[45s]))`, `max(avg by (l) (a))`, `count by (m) (a) > 1`, `topk(1, sum by (l) (a))`,
@@ -326,7 +346,7 @@ func init() {
 		return s, d
 	}
 	check.Register("C10/enum", func(c *check.Ctx) {
-		maxN, maxK := 5, 3
+		maxN, maxK := 4, 3
 		if c.Thorough() {
 			maxN, maxK = 7, 4
 		}
